@@ -34,7 +34,9 @@ fn named_ctor(d: Duration, ts: TimeScale) -> Epoch {
 pub fn j_conv(src: TimeScale, dst: TimeScale, c: i128, out: &mut Local) {
     let want = convert_uniform(c, src, dst);
     let args = vec![scale_name(src).to_string(), scale_name(dst).to_string(), enc(c)];
-    if !(DMIN + 2 * NPC..=DMAX - 2 * NPC).contains(&want) {
+    // "as long as no duration bound is hit": within two centuries of the ends a conversion (whose TAI intermediate may
+    // not be representable) is not judged - except the identity, which involves no other scale and no bound
+    if src != dst && !(DMIN + 2 * NPC..=DMAX - 2 * NPC).contains(&want) {
         out.dc(0);
         return;
     }
@@ -256,6 +258,15 @@ pub fn run(rep: &mut Report) {
     let lw = if q { None } else { Some((-3i64, 40i64)) };
     let els: Vec<Vec<i128>> = UNIFORM.iter().map(|s| lattice::el(*s, w, lw)).collect();
     rep.bound("EL_sizes", els.iter().map(|e| e.len() as u64).collect::<Vec<_>>());
+    // identity conversions over the whole representable range (every accessor of the epoch's own scale included)
+    let mut farc: Vec<i128> = vec![DMIN, DMIN + 1, DMAX - 1, DMAX];
+    let year = 365 * 86_400 * NS_S;
+    for d in [NS_S, 30 * year, 79 * year, 99 * year, 105 * year, 110 * year, NPC + 189_302_433 * NS_S, 768 * NPC + 5, 20_000 * NPC + 7] {
+        farc.push(DMAX - d);
+        farc.push(DMIN + d);
+    }
+    let nfar = farc.len() as u64;
+    sweep(rep, "c05.conv[identity,far]", 6 * nfar, |i, out| j_conv(UNIFORM[(i / nfar) as usize], UNIFORM[(i / nfar) as usize], farc[(i % nfar) as usize], out));
     for (si, src) in UNIFORM.iter().enumerate() {
         let el = &els[si];
         let n = el.len() as u64;
